@@ -90,6 +90,7 @@ class Registry:
         self.lemmas: List[Any] = []
         self.externals: Dict[Any, Any] = {}
         self.symbolic_globals: Dict[str, str] = {}   # 'module:attr' -> kind (mutable settings)
+        self.tuple_classes: Dict[str, type] = {}     # tuple kind text -> NamedTuple class (methods)
 
     def contract(self, target, **kw):
         import inspect
